@@ -46,6 +46,9 @@ def cases_for(ctx):
     cases.append({'behaviours': ['equal', 'different', 'player_raises', 'equal'], 'dedicated': True, 'recycle': 2, 'keep': True, 'flip_mode': True, 'via_studio': True})
     cases.append({'behaviours': ['different', 'equal', 'bare_status'], 'dedicated': True, 'recycle': 5, 'keep': False, 'flip_mode': True})
     cases.append({'behaviours': ['equal', 'different', 'equal', 'equal', 'different'], 'dedicated': True, 'recycle': 2, 'keep': True, 'consume_in_fork': True})
+    # explicit ids: more recordings than any default limit, through the studio; a timed-out worker that cannot be killed and answers late
+    cases.append({'behaviours': ['equal', 'different'] * 12 + ['equal'], 'dedicated': False, 'recycle': 5, 'keep': False, 'via_studio': True})
+    cases.append({'behaviours': ['equal', 'late', 'equal', 'different', 'equal'], 'dedicated': True, 'recycle': 5, 'keep': True, 'kill_fails': True})
     if ctx.quick:
         return cases
     rng = ctx.rng
